@@ -17,7 +17,7 @@ LEVEL_TEXT = (
 
 CHECKS = {
     "C02": dict(
-        rules="R02.1-R02.6, R02.8",
+        rules="R02.1-R02.6, R02.8, R02.9",
         what="every accepting return of find_cache_meta/validate_meta is dominated by a rejecting gate for each required meta field (or its named bypass); SCC freshness is the conjunction of its three tests (truth-table evaluation); State.is_fresh conjuncts; cached errors of fresh modules are replayed; stored and compared values of each gate field come from the same producer; the indirect-dependency visitor reaches every type component; the fast path and the import-cycle path of transitive_dep_hash select and hash the same dependencies",
         quant="edit histories with a run after every edit, in four store x format configurations",
         technique="CFG must-pass-through with polarity, abstract (truth-table) evaluation of the freshness flag, producer cross-check, component-coverage matrix",
@@ -25,7 +25,7 @@ CHECKS = {
         design="DESIGN.md §4 C02",
     ),
     "C03": dict(
-        rules="R03.1-R03.5 (+R20.1 bound via C20)",
+        rules="R03.1-R03.6 (+R20.1 bound via C20)",
         what="order of the re-processing pipeline in reprocess_nodes and of the propagation loop; type snapshots read every __eq__ field; component-coverage matrix of the astmerge / deps / astdiff type visitors; the follow-imports walk queues every module found changed (never filtered by the set the finder marks); every daemon check response computes its status by main()'s predicate",
         quant="edit histories checked after every step",
         technique="CFG must-pass-through ordering, sibling cross-check (__eq__ fields vs snapshot reads), component-coverage matrix",
@@ -57,8 +57,8 @@ CHECKS = {
         design="DESIGN.md §4 C06",
     ),
     "C07": dict(
-        rules="R07.1-R07.4",
-        what="commit-before-reply in the worker for both phases; readiness gating by not_ready_count and interface-only done marking in the coordinator; agreement of the step sets of the sequential and the two-phase path; commit before the first broadcast",
+        rules="R07.1-R07.5",
+        what="commit-before-reply in the worker for both phases; readiness gating by not_ready_count and interface-only done marking in the coordinator; agreement of the step sets of the sequential and the two-phase path; commit before the first broadcast; coordinator-side import errors recorded, shipped for every module of the batch and replayed by the worker",
         quant="schedules of batches over workers",
         technique="CFG must-pass-through queries, guard-chain (control dependence) checks, sibling cross-check of step sets",
         note="Nothing about real interleavings is decided; these are the orderings any schedule relies on. tables/R07.3.json holds the four explained step differences.",
@@ -89,8 +89,8 @@ CHECKS = {
         design="DESIGN.md §4 C14",
     ),
     "C09": dict(
-        rules="R09.0-R09.4",
-        what="the options snapshot is computed from every name in OPTIONS_AFFECTING_CACHE; every Options attribute read in the RTA call-graph zone of the cached computation is keyed, keyed separately, not settable, or tabled; print-time options are not read while rendering cached tuples; cache directory derives from python_version",
+        rules="R09.0-R09.5",
+        what="the options snapshot is computed from every name in OPTIONS_AFFECTING_CACHE; every Options attribute read in the RTA call-graph zone of the cached computation is keyed, keyed separately, not settable, or tabled; print-time options are not read while rendering cached tuples; cache directory derives from both components of python_version; the target options that decide suppression of an import are the ones dep_import_options records",
         quant="option toggles between runs",
         technique="who-may-read rule over an RTA call graph with annotation-driven receiver typing; constant evaluation of the key tables",
         note="Trusted: receiver typing and call resolution of sa/resolve.py + sa/callgraph.py (name-based fallback for unknown receivers); the ZONE_CUT list and tables/R09.1.json (each entry one construct with a reason). Assumes C02's gates reject on snapshot mismatch (checked by R02.1).",
@@ -145,8 +145,8 @@ CHECKS = {
         design="DESIGN.md §4 C16",
     ),
     "C17": dict(
-        rules="R17.1-R17.5",
-        what="command-line dests vs Options attributes; converter completeness for documented config keys; ini/toml converter table agreement and inversion prefixes; inline comments and per-module sections routed through parse_section",
+        rules="R17.1-R17.6",
+        what="command-line dests vs Options attributes; converter completeness for documented config keys; ini/toml converter table agreement and inversion prefixes; inline comments and per-module sections routed through parse_section; each section applied by its own apply_changes call",
         quant="options x sources x conflicting pairs",
         technique="table/AST cross-check of main.define_options, config_parser tables, Options.__init__ and docs/source/config_file.rst",
         note="The precedence algorithm among sections is value-level and not decided. R17.5 (docs wording) is informational only.",
